@@ -255,6 +255,124 @@ inline void c_encode(uint64_t v, int k, uint32_t& c0, uint32_t& c1) {
   c1 = (uint32_t)(((v % q) << 32) % q);  // (v mod q) < 2^32: the shift fits 64 bits
 }
 
+// ---------------------------------------------------------------------------- implementation roots (order-agnostic oracle)
+// The transform under test is only required to be *an* evaluation map at the n primitive 2n-th roots of unity, in
+// whatever order.  build() takes the implementation's transform of the polynomial X (raw 64-bit lanes, n x 4),
+// validates that the n values per prime are pairwise distinct roots of X^n+1 and records where each of them sits in
+// the oracle's own ordering.  After that  expected(transform(a))[j] = a(r_j) = forward(a)[idx[j]].
+struct Roots {
+  uint64_t n = 0;
+  std::vector<uint64_t> r[4];
+  std::vector<uint32_t> idx[4];
+  std::string err;  // empty when valid
+  void build(uint64_t n_, const uint64_t* transform_of_X) {
+    n = n_;
+    err.clear();
+    for (int k = 0; k < 4; ++k) {
+      const uint64_t q = QS[k];
+      const Eval& e = eval_ctx(n, k);
+      r[k].assign(n, 0);
+      idx[k].assign(n, 0);
+      std::vector<uint8_t> used(n, 0);
+      for (uint64_t j = 0; j < n; ++j) {
+        const uint64_t v = n == 1 ? q - 1 : transform_of_X[4 * j + k] % q;  // n == 1: Z[X]/(X+1), the only point is -1
+        r[k][j] = v;
+        if (powm(v, n, q) != q - 1) {
+          err = "transform(X)[" + std::to_string(j) + "] = " + std::to_string(v) + " mod q" + std::to_string(k + 1) + " is not a root of X^n+1 (r^n != -1)";
+          return;
+        }
+        const int64_t i = e.index_of(v);
+        if (i < 0) {
+          err = "oracle lookup failed for a value with r^n = -1 (oracle inconsistency)";
+          return;
+        }
+        if (used[i]) {
+          err = "transform(X) repeats the evaluation point " + std::to_string(v) + " mod q" + std::to_string(k + 1) + " (position " + std::to_string(j) + ")";
+          return;
+        }
+        used[i] = 1;
+        idx[k][j] = (uint32_t)i;
+      }
+    }
+  }
+  // E[4*j+k] = a(r_j) mod q_k for a given as raw lanes (n x 4)
+  void evaluate(const uint64_t* a, uint64_t* E) const {
+    std::vector<uint64_t> col(n), A(n);
+    for (int k = 0; k < 4; ++k) {
+      const Eval& e = eval_ctx(n, k);
+      for (uint64_t i = 0; i < n; ++i) col[i] = a[4 * i + k] % e.q;
+      e.forward(col.data(), A.data());
+      for (uint64_t j = 0; j < n; ++j) E[4 * j + k] = A[idx[k][j]];
+    }
+  }
+};
+
+// ---------------------------------------------------------------------------- 64-bit lane pattern families (generator side)
+// shared by the NTT checks (C03, C04): d = n x 4 lanes, lane k belongs to prime k.  R = any SplitMix-like rng with
+// next() / below(n).
+enum LaneFam { LF_ALL_ONES = 0, LF_ZERO, LF_ALTERNATING, LF_CQ_MINUS_1, LF_CQ, LF_SINGLE, LF_UNIFORM64, LF_CANONICAL, LF_TOPBIT, LF_MIXED_EXTREMAL, LF_N };
+inline const char* lane_fam_name(int f) {
+  static const char* nm[] = {"all-ones", "zero", "alternating", "cq-1", "cq", "single", "uniform64", "canonical", "topbit", "mixed-extremal"};
+  return nm[f % LF_N];
+}
+inline bool lane_fam_extremal(int f) {
+  f %= LF_N;
+  return f == LF_ALL_ONES || f == LF_ALTERNATING || f == LF_CQ_MINUS_1 || f == LF_CQ || f == LF_MIXED_EXTREMAL;
+}
+template <class R>
+inline uint64_t extremal_word(int k, R& r) {
+  const uint64_t q = QS[k], cm = cmax(q);
+  const uint64_t e[] = {UINT64_MAX, UINT64_MAX, cm * q - 1, cm * q, UINT64_MAX - 1, 1ull << 63, (1ull << 63) - 1,
+                        0xFFFFFFFF00000000ull, 0x00000000FFFFFFFFull, 1ull << 32, 0, 0, q - 1, q, (cm - 1) * q, 0x8000000080000000ull};
+  return e[r.below(sizeof e / sizeof e[0])];
+}
+template <class R>
+inline void fill_lanes(uint64_t* d, uint64_t n, int fam, R& r) {
+  const uint64_t W = 4 * n;
+  switch (fam % LF_N) {
+    case LF_ALL_ONES:
+      for (uint64_t i = 0; i < W; ++i) d[i] = UINT64_MAX;
+      break;
+    case LF_ZERO:
+      for (uint64_t i = 0; i < W; ++i) d[i] = 0;
+      break;
+    case LF_ALTERNATING: {  // 0 / 2^64-1 with period 2^(t+1) over the coefficient index (t = 0: neighbours differ), either polarity;
+                            // t = log2(n)-1 puts the maxima in one half: the two operands of a first-level butterfly are (max, 0)
+      unsigned lg = 0;
+      while ((2ull << lg) <= n) ++lg;  // lg = log2 n
+      const unsigned t = lg ? (unsigned)r.below(lg) : 0;
+      const uint64_t pol = r.next() & 1, bylane = (r.next() & 3) == 0;
+      for (uint64_t i = 0; i < n; ++i)
+        for (int k = 0; k < 4; ++k) d[4 * i + k] = ((((i >> t) & 1) ^ pol ^ (bylane ? (uint64_t)(k & 1) : 0)) & 1) ? UINT64_MAX : 0;
+      break;
+    }
+    case LF_CQ_MINUS_1:
+      for (uint64_t i = 0; i < W; ++i) d[i] = cmax(QS[i & 3]) * QS[i & 3] - 1;
+      break;
+    case LF_CQ:
+      for (uint64_t i = 0; i < W; ++i) d[i] = cmax(QS[i & 3]) * QS[i & 3];
+      break;
+    case LF_SINGLE: {
+      for (uint64_t i = 0; i < W; ++i) d[i] = 0;
+      const uint64_t p = r.below(W);
+      uint64_t v = (r.next() & 1) ? extremal_word((int)(p & 3), r) : r.next();
+      d[p] = v ? v : 1;
+      break;
+    }
+    case LF_UNIFORM64:
+      for (uint64_t i = 0; i < W; ++i) d[i] = r.next();
+      break;
+    case LF_CANONICAL:
+      for (uint64_t i = 0; i < W; ++i) d[i] = r.below(QS[i & 3]);
+      break;
+    case LF_TOPBIT:
+      for (uint64_t i = 0; i < W; ++i) d[i] = r.next() | (1ull << 63);
+      break;
+    default:
+      for (uint64_t i = 0; i < W; ++i) d[i] = extremal_word((int)(i & 3), r);
+  }
+}
+
 // ---------------------------------------------------------------------------- self test
 // returns "" when every cross-check passes; run once per process by the checks
 inline std::string selftest_impl() {
